@@ -364,8 +364,31 @@ func (s *scriptedWriter) WritePacket(p *packet.Packet) (int, error) {
 	return s.mok, nil
 }
 
+// rawSink / rawCloserSink: a packet writer that ALSO has raw Write / ReadFrom (/ Close) methods of its own (a sink that
+// embeds a buffer, a file, a connection).  The adapters must still deliver through WritePacket; a raw method being
+// called is recorded as a call with the 1-byte marker 0xEE, which the model never produces (seeded C18-z1: the
+// constructors returned an argument that already had a Write method as it was).
+type rawSink struct{ *scriptedWriter }
+
+func (r rawSink) Write(p []byte) (int, error) {
+	r.calls = append(r.calls, []byte{0xEE})
+	return len(p), nil
+}
+func (r rawSink) ReadFrom(rd io.Reader) (int64, error) {
+	r.calls = append(r.calls, []byte{0xEE})
+	return io.Copy(io.Discard, rd)
+}
+
+type rawCloserSink struct{ rawSink }
+
+func (r rawCloserSink) Close() error { return nil }
+
 func (s *scriptedWriter) adapter(kind int) packet.Writer {
 	switch kind {
+	case 3:
+		return packet.IOWriter(rawSink{s})
+	case 4:
+		return packet.IOWriteCloser(rawCloserSink{rawSink{s}})
 	case 1:
 		return packet.IOWriteCloser(packet.NopCloser(s))
 	case 2:
